@@ -396,7 +396,7 @@ OBLIGATIONS = [
        symbolic="variant of step 2 (14 variants: 7 decorator forms x filter values, unregister of either earlier hook), evaluated operation (4)",
        bounds="2 steps on one schema-scope dispatcher; first step enumerated by the driver; filter values from 2 methods x 2 paths; 4 operations",
        stubs=["Hypothesis strategy replaced by a recorder of map/filter/flatmap calls", "schemathesis.filters.hash evaluated outside tracing (concrete labels)"], outside=["regex/tag/operation_id filter kinds (C07 covers the matchers)", "hook kinds other than map_query"]),
-    Ob(fn="hook_history_3", clause="as above, histories of three steps", tiers=("thorough",), timeout=900, params=range(NV),
+    Ob(fn="hook_history_3", clause="as above, histories of three steps", tiers=("thorough",), timeout=400, params=range(NV),
        param_names=["first step: " + v for v in VNAMES], functions=_HF, symbolic="variants of steps 2 and 3, evaluated operation",
        bounds="3 steps on one schema-scope dispatcher", stubs=["Hypothesis strategy replaced by a recorder"]),
     Ob(fn="hook_scopes", clause="hooks of all applicable scopes (global, schema, test) are all applied, each under its own filter",
@@ -410,7 +410,7 @@ OBLIGATIONS = [
        timeout={"quick": 90, "thorough": 300}, params=range(NAV), param_names=["first: " + v for v in AVNAMES], functions=_AF,
        symbolic="registration variant of provider 2 (10 variants); evaluated operation",
        bounds="2 providers on one storage", stubs=["refresh_interval=None (no token cache; C14 covers the cache)"]),
-    Ob(fn="auth_history_3", clause="as above, three providers", tiers=("thorough",), timeout=900, params=range(NAV), param_names=["first: " + v for v in AVNAMES],
+    Ob(fn="auth_history_3", clause="as above, three providers", tiers=("thorough",), timeout=400, params=range(NAV), param_names=["first: " + v for v in AVNAMES],
        functions=_AF, symbolic="variants of providers 2 and 3; evaluated operation", bounds="3 providers on one storage",
        stubs=["refresh_interval=None"]),
     Ob(fn="auth_test_scope", clause="a provider attached to one test with @schema.auth(P) obeys the same filters and does not leak to the storage it was created from",
